@@ -45,8 +45,10 @@ LEVEL_TEXT = (
 LEVEL_NOTE = "Not asserted (the code does not document it): type of the root_hash argument of the trie.branches helpers, the value argument of SparseMerkleProof.update - for these only 'state unchanged' is checked."
 TECHNIQUE = "table-driven property-based testing: invalid call injected into generated histories; snapshot equality + model continuation; exhaustive table on fixed states"
 
-BAD_BYTES = ["str", "int", "none", "bytearray", "memoryview", "list", "tuple", "float", "bool"]
-BAD_NIBBLES = ["int", "str", "bytes", "n16", "n-1", "na", "nnone", "nfloat"]
+BAD_BYTES = ["str", "int", "none", "bytearray", "memoryview", "list", "tuple", "float", "bool",
+             "bytearray-empty", "memoryview-empty", "str-empty"]
+BAD_NIBBLES = ["int", "str", "bytes", "n16", "n-1", "na", "nnone", "nfloat", "bytearray-small",
+               "bytearray-empty", "bytes-empty"]
 NIB_ERR = (TypeError, ValueError)
 
 
@@ -55,12 +57,15 @@ def bad_bytes(kind, good=b"\x12\x34"):
         "str": good.decode("latin1"), "int": 5, "none": None, "bytearray": bytearray(good),
         "memoryview": memoryview(good), "list": list(good), "tuple": tuple(good),
         "float": 1.5, "bool": True,
+        # things that compare equal to b"" without being bytes
+        "bytearray-empty": bytearray(), "memoryview-empty": memoryview(b""), "str-empty": "",
     }[kind]
 
 
 def bad_nibbles(kind):
     return {"int": 7, "str": "ab", "bytes": b"ab", "n16": (1, 16), "n-1": (-1,), "na": ("a",),
-            "nnone": (None,), "nfloat": (1.5,)}[kind]
+            "nnone": (None,), "nfloat": (1.5,), "bytearray-small": bytearray(b"\x01\x02"),
+            "bytearray-empty": bytearray(), "bytes-empty": b""}[kind]
 
 
 # entry tables: name -> (bad kinds, expected exception types)
